@@ -21,7 +21,7 @@ How the `panic` sites are excluded (each line is a lemma used by `file_total`):
 |---|---|---|
 | parser (`unreachable!()`, `pop().unwrap()`, loop budget) | stack shape `LR.Inv` | `C09.parser_no_panic` |
 | `eval_obj_ref`/`eval_extern_ref` on an empty path | `ObjRef.WF`, kept by every parser step | `LR.feed_wf`, `evalObjRef_ok` |
-| `toplevel_module: unreachable` (import of a non-module) | identifiers are `Plain`; plain keys are modules | `Lex.line_toks_ok`, `plain_is_module` |
+| `toplevel_module: unreachable` (import of a non-module) | identifiers are `Plain`; plain keys are modules | `Lex.line_toks_ok`, `Lex.finish_tok_ok` (the literal flushed at end of input is a string token), `plain_is_module` |
 | `funcOf`: dangling function path | `ValOk`: function values are paths of table entries | `evalObjRef_ok`, `funcOf_ok` |
 | `take_this` / downcast in method bodies | `ValOk`: receiver is a live heap slot of the method's class; heap only grows / keeps classes (`HeapExt`) | `covered_post`, `method_covered` |
 | free function called as method or vice versa | identifiers contain no `.`; table keys | `free_function_covered`, `method_covered` |
@@ -52,9 +52,18 @@ theorem file_success_or_diagnostic (fs : Fs) (budget : Option Nat) (src : Bytes)
 /-! ## the pieces, restated -/
 
 /-- every identifier the lexer delivers is a plain name (no `.`, no `:`) -/
-theorem lexer_identifiers_plain (lno : Nat) (pending ln : String) (lo : Lex.LineOut)
+theorem lexer_identifiers_plain (lno : Nat) (pending : Option String) (ln : String) (lo : Lex.LineOut)
     (h : Lex.line lno pending ln = .ok lo) : ∀ t ∈ lo.toks, t.kind = .ident → Plain t.text :=
   Lex.line_toks_ok h
+
+/-- the token of the end-of-input flush (`Lexer::finish`: the literal still pending, if any) is a
+string token - it cannot break the "identifiers are plain" invariant either -/
+theorem finish_token_ok (pending : Option String) (loc : Loc) (t : Tok) (h : Lex.finish pending loc = some t) :
+    t.kind = .strLit ∧ TokOk t := by
+  refine ⟨?_, Lex.finish_tok_ok h⟩
+  cases pending with
+  | none => cases h
+  | some p => simp only [Lex.finish, Option.map_some, Option.some.injEq] at h; subst h; rfl
 
 /-- every statement a reachable parser hands over is well formed (every reference has at least one
 component and consists of plain names), as long as identifiers are plain -/
@@ -127,13 +136,18 @@ private def identTexts : Except Nat Lex.LineOut → List String
   | .error _ => []
 
 /-- the lexer cuts `t.open(ipv4::x);` into plain identifiers: `.` and `::` are tokens of their own -/
-example : identTexts (Lex.line 3 "" "t.open(ipv4::x);") = ["t", "open", "ipv4", "x"] := by decide +kernel
+example : identTexts (Lex.line 3 none "t.open(ipv4::x);") = ["t", "open", "ipv4", "x"] := by decide +kernel
 
 /-- both kinds of non-panic outcome occur: the empty program succeeds; with an output device that
 accepts no bytes it fails with an I/O diagnostic -/
 example : (processFile ⟨Gen.lib, []⟩ none []).outcome = .success := by rw [processFile_eq]; rfl
 example : (processFile ⟨Gen.lib, []⟩ (some 0) []).outcome = .failure "Io" "" Loc.nil := by
   rw [processFile_eq]; rfl
+
+/-- a file that ends in a string literal: the literal is flushed to the parser at end of input, which
+rejects it - a diagnostic (at the position where the lexer stopped), not a panic -/
+example : (processFile ⟨Gen.lib, []⟩ none "\"junk\"".toUTF8.toList).outcome = .failure "Parse" "" ⟨1, 7⟩ := by
+  rw [processFile_eq]; decide +kernel
 
 /-! The invariants are needed — each of the model's panic sites IS reachable from syntax trees,
 register contents or packets that violate them: -/
